@@ -127,6 +127,10 @@ def oracle_c12(tr: Trace):
         # receiver refuses a first PDU that is not Metadata)
         first_pdu = eof_cancel and (st.prev is None or st.prev["fields"]["state"] == 0) and st.pdu["mode"] == 0 \
             and st.ob["fields"]["state"] == 1
+        if busy_receiving and any(e[0] in (11, 14) and e[3] == 7 for e in st.ob["events"]):
+            # the advancement that every call starts with found the NAK limit reached and cancelled / abandoned the transaction
+            # before the PDU of the call was looked at: two cancellations meet, the property does not say which one wins
+            busy_receiving = False
         if busy_receiving or first_pdu:
             # EOF (cancel) while still receiving: finishes with the EOF's condition, sender as fault location, incomplete
             fins = [e for e in st.ob["events"] if e[0] == 3]
